@@ -56,6 +56,7 @@ type Ctx struct {
 	cfgMemo        *bool
 	exprMemo       *bool
 	retMemo        *bool
+	asyncMemo      *bool
 	rollMemo       map[string]bool
 }
 
